@@ -5,7 +5,8 @@ import vlib
 
 PAD = "p" * 200
 PROBE_IDS = [1, 2, 7, 8, 9, 31, 32, 33, 63, 64, 65, 127, 128, 129, 200, 255, 256, 257]
-SETUP = ["CREATE TABLE w (id INT PRIMARY KEY, a INT, pad TEXT)", "CREATE INDEX w_a ON w (a)"]
+SETUP = ["CREATE TABLE w (id INT PRIMARY KEY, a INT, pad TEXT, c INT)", "CREATE INDEX w_a ON w (a)"]
+CBASE = 100000
 
 
 def run_ids(op):
@@ -21,7 +22,7 @@ def op_ops(op):
     k = op["k"]
     if k == "insert_run":
         ids = run_ids(op)
-        return [{"k": "exec", "sql": "INSERT INTO w VALUES " + ", ".join("(%d, %d, '%s')" % (i, i % 10, PAD) for i in ids[j:j + 50])}
+        return [{"k": "exec", "sql": "INSERT INTO w VALUES " + ", ".join("(%d, %d, '%s', %d)" % (i, i % 10, PAD, CBASE - i) for i in ids[j:j + 50])}
                 for j in range(0, len(ids), 50)]
     if k == "delete_range":
         return [{"k": "exec", "sql": "DELETE FROM w WHERE id BETWEEN %d AND %d" % (op["lo"], op["hi"])}]
@@ -46,6 +47,7 @@ def probe_ops(n):
     ops += [{"k": "query", "sql": "SELECT COUNT(*) FROM w WHERE id BETWEEN %d AND %d" % r} for r in ((60, 70), (120, 260), (n - 5, n))]
     ops += [{"k": "query", "sql": "SELECT id FROM w WHERE a = 3"}]
     ops += [{"k": "query", "sql": "SELECT COUNT(*) FROM w WHERE pad = '%s'" % PAD}, {"k": "query", "sql": "SELECT id FROM w WHERE pad = '%s'" % PAD}]
+    ops += [{"k": "query", "sql": "SELECT id FROM w WHERE c = %d" % (CBASE - i)} for i in ids]
     return ops, ids
 
 
@@ -73,6 +75,13 @@ def walks(chk, num, depth, n=400, ddl=False):
         prev = e
     if prev is not None:
         hists.append(prev["hist"])
+    seen, uniq = set(), []
+    for h in hists:          # the weights of the spec (\E w \in 1..k) make TLC print the same successor k times
+        k = json.dumps([x["op"] for x in h], sort_keys=True)
+        if k not in seen:
+            seen.add(k)
+            uniq.append(h)
+    hists = uniq
     if not hists:
         raise vlib.ToolError("TLC -simulate produced no WideTable behaviours:\n" + sim["out"][-1500:])
     return hists
@@ -83,6 +92,8 @@ def execute(hists, n=400, ddl=False):
     rend, meta = [], {}
     for cid, h in enumerate(hists):
         ops = [{"k": "exec", "sql": s} for s in (SETUP[:1] if ddl else SETUP)]
+        if ddl:      # WideTable.Prefilled
+            ops += op_ops({"k": "insert_run", "lo": 1, "len": 600, "ord": "asc"})
         marks = []
         for st in h:
             o = op_ops(st["op"])
@@ -159,6 +170,11 @@ def judge(hists, outs, n=400):
             j += 1
             if sorted(r[0] for r in pr[j]["rows"]) != sorted(scan):
                 probs.append((h[:si + 1], "index", {"what": "pad_eq_rows", "scan_n": len(scan), "observed_n": len(pr[j]["rows"])})); bad = True
+            for i in ids:
+                j += 1
+                want = [[i]] if i in scan else []
+                if pr[j]["rows"] != want:
+                    probs.append((h[:si + 1], "index", {"what": "c_point_lookup", "id": i, "scan": want, "observed": pr[j]["rows"]})); bad = True
             if not bad:
                 stats["ok"] += 1
             if not model_scan_ok or got_n != st["n"]:
@@ -170,7 +186,7 @@ def judge(hists, outs, n=400):
 def replay(chk, rep, kind, prefix="wide"):
     """bin/check CNN --replay: re-run one recorded WideTable behaviour and classify what shows again"""
     h, ddl = rep["wide_hist"], bool(rep.get("wide_ddl"))
-    n = 700 if ddl else 400
+    n = 1000 if ddl else 400
     vlib.build_harness()
     probs, st = judge([h], execute([h], n=n, ddl=ddl), n=n)
     print("replayed:", describe(h))
